@@ -33,7 +33,7 @@ Key(c) == <<c.tok, c.do, c.cd>>
 Judge(e) ==
     LET range == cstart..(l - 1)
         csI == {j \in range : Rec[j].ev = "csend" /\ Rec[j].q = e.q}
-    IN IF csI = {} \/ e.rcode # 0 \/ ~e.parse_ok THEN [bad |-> FALSE, shape |-> "", cached |-> FALSE]
+    IN IF csI = {} \/ ~e.parse_ok THEN [bad |-> FALSE, shape |-> "", cached |-> FALSE]
        ELSE
        LET cs == Max(csI)
            c == Rec[cs]
